@@ -1,6 +1,12 @@
+#[cfg(not(feature = "verif-loom"))]
 use std::{
     sync::atomic::{AtomicU8, AtomicU32, AtomicU64, Ordering},
     time::{Duration, SystemTime, UNIX_EPOCH},
+};
+#[cfg(feature = "verif-loom")]
+use {
+    loom::sync::atomic::{AtomicU8, AtomicU32, AtomicU64, Ordering},
+    std::time::Duration,
 };
 
 #[derive(Debug, Clone, Copy, PartialEq)]
@@ -205,6 +211,12 @@ impl WriteCircuitBreaker {
     }
 }
 
+#[cfg(feature = "verif-loom")]
+fn current_timestamp() -> u64 {
+    crate::clock_tick()
+}
+
+#[cfg(not(feature = "verif-loom"))]
 fn current_timestamp() -> u64 {
     SystemTime::now()
         .duration_since(UNIX_EPOCH)
